@@ -257,6 +257,16 @@ let eval (line : string) : string =
          | Ok (p', Some vs) -> cur_parser := p'; "ok " ^ String.concat " " (List.concat_map tok_of_val vs) ^ " " ^ parser_state ()
          | Ok (p', None) -> cur_parser := p'; "fail " ^ parser_state ()
          | o -> status o)
+  (* BPUSHVI v[T] v T <val>: push_variant of the content of the harness's variant wrapper (T's own signature may be one a
+     variant must not carry) *)
+  | "BPUSHVI" ->
+      let e = parse_ety (next ()) in
+      (match e, parse_val toks pos with
+       | EVar inner, VVariant (_, x) ->
+           let (b', ok) = step_body !cur_body (PushVariant (erase inner, x)) in
+           cur_body := b';
+           (if ok then "ok " else "err ") ^ body_state ()
+       | _ -> "?")
   | "BPUSHM" ->
       let k = int_of_string (next ()) in
       let items = List.init k (fun _ -> ()) |> List.map (fun () -> let t = erase (parse_ety (next ())) in (t, parse_val toks pos)) in
